@@ -76,6 +76,7 @@ type collRule struct {
 
 type collOp struct {
 	Op    string    `json:"op"`          // span | tick | tickspan | ltick | eject | reload | alloc | stop
+	Inflight bool   `json:"inflight,omitempty"` // stop: the real ticker fires on every (resumed) worker and Stop is called at once, while the workers are deciding
 	Stall bool      `json:"stall,omitempty"` // stop: upstream stalled, final late tick on every worker, Stop called while the decided traces are still queued
 	D     int64     `json:"d,omitempty"` // clock advance before the op (ns)
 	W     int       `json:"w,omitempty"` // worker (tick / eject), reduced mod worker count
@@ -95,6 +96,7 @@ type collInput struct {
 	Flush    bool         `json:"flush,omitempty"` // finish with late ticks until every buffer is empty
 	ShrinkRound int       `json:"shrink_round,omitempty"` // bookkeeping of collShrink
 	ShrinkMax   int       `json:"shrink_max,omitempty"`   // cap on shrink rounds (0 = 3)
+	Inflight    bool      `json:"inflight_case,omitempty"` // C36: run in a child process, only "no crash / no hang" is checked
 }
 
 // ---------------------------------------------------------------- doubles
@@ -766,6 +768,19 @@ func collRunOpts(in collInput, opts collOpts) (*collResult, error) {
 				continue
 			}
 			stopped = true
+			if op.Inflight {
+				// shutdown while the workers are in the middle of their send tick: everything buffered is
+				// due (now + 2^40), the workers are resumed, their tickers fire, and Stop is called at once
+				now += 1 << 40
+				clock.now.Store(now)
+				unpark()
+				fake.Advance(time.Duration(conf.GetTracesConfig().SendTicker))
+				done := make(chan error, 1)
+				go func() { done <- coll.Stop() }() // a panic here or in a worker kills the process: the parent reports it
+				res.StopErr = collStopWait(done)
+				res.Stopped = true
+				break
+			}
 			if op.Stall {
 				// Stop while decided traces are still in the outgoing queue: the upstream is stalled, a
 				// final late tick on every worker decides what is due (now + 2^40 ns), and Stop is called
